@@ -232,6 +232,47 @@ enum TaggedOwned<I> {
     Other,
 }
 
+#[derive(Serialize)]
+#[serde(untagged)]
+enum UntaggedRef<'a, I> {
+    Item(&'a I),
+}
+
+#[derive(Deserialize)]
+#[serde(untagged, bound(deserialize = "I: Deserialize<'de>"))]
+enum UntaggedOwned<I> {
+    #[allow(dead_code)]
+    Count(u64),
+    Item(I),
+}
+
+#[derive(Serialize)]
+struct InnerRef<'a, I> {
+    v: &'a I,
+}
+
+#[derive(Serialize)]
+struct FlattenRef<'a, I> {
+    name: &'a str,
+    #[serde(flatten)]
+    inner: InnerRef<'a, I>,
+}
+
+#[derive(Deserialize)]
+#[serde(bound(deserialize = "I: Deserialize<'de>"))]
+struct InnerOwned<I> {
+    v: I,
+}
+
+#[derive(Deserialize)]
+#[serde(bound(deserialize = "I: Deserialize<'de>"))]
+struct FlattenOwned<I> {
+    #[allow(dead_code)]
+    name: String,
+    #[serde(flatten)]
+    inner: InnerOwned<I>,
+}
+
 /// JSON object whose keys are the items, in the given order.
 struct KeysOwned<I>(Vec<I>);
 
@@ -266,6 +307,9 @@ impl<'a, I: Serialize> Serialize for Wire<'a, I> {
             Shape::Entry => EntryRef { name: "pkg", v: items[0], tags: ["a", "b"] }.serialize(s),
             Shape::Tagged => TaggedRef::Pin { v: items[0] }.serialize(s),
             Shape::Keyed => s.collect_map(items.iter().enumerate().map(|(i, k)| (k, i as u64))),
+            Shape::Opt => Some(items[0]).serialize(s),
+            Shape::Untagged => UntaggedRef::Item(items[0]).serialize(s),
+            Shape::Flatten => FlattenRef { name: "pkg", inner: InnerRef { v: items[0] } }.serialize(s),
         }
     }
 }
@@ -280,6 +324,12 @@ fn decode<'de, I: Deserialize<'de>, D: serde::Deserializer<'de>>(shape: Shape, d
             TaggedOwned::Other => vec![],
         }),
         Shape::Keyed => KeysOwned::<I>::deserialize(d).map(|k| k.0),
+        Shape::Opt => Option::<I>::deserialize(d).map(|o| o.into_iter().collect()),
+        Shape::Untagged => UntaggedOwned::<I>::deserialize(d).map(|e| match e {
+            UntaggedOwned::Item(v) => vec![v],
+            UntaggedOwned::Count(_) => vec![],
+        }),
+        Shape::Flatten => FlattenOwned::<I>::deserialize(d).map(|e| vec![e.inner.v]),
     }
 }
 
@@ -814,6 +864,9 @@ where
         Shape::Entry => C::shape_struct_field,
         Shape::Tagged => C::shape_tagged_enum,
         Shape::Keyed => C::shape_map_keys,
+        Shape::Opt => C::shape_option,
+        Shape::Untagged => C::shape_untagged_enum,
+        Shape::Flatten => C::shape_flattened_struct,
     });
     let many = shape == Shape::Many;
 
